@@ -11,6 +11,7 @@ from lib import gram
 ID = 'C16'
 TECHNIQUE = 'runtime monitor: exception-class oracle per failure category (by construction), swallowed-failure monitor (M1 on_raise), crash/exit-status watch'
 RULE = '(a) programs built to fail in exactly one listed way: a fault (undefined variable, undefined function in call/method/pipe spelling, missing key/index read, pop of an empty list, element-adding mutator at the 10000 cap, compound assignment to an undefined name or missing key/index, op budget) in every evaluated position of nested expression/statement contexts (top level, after/before other lines, lambda bodies driven by map/filter/reduce/sorted and host callbacks, ast_names bodies), one eval in five preceded by poisoning calls that bound exactly the names the fault leaves undefined and then failed; a faulting lambda in every argument position of every builtin under the swallowed-failure monitor; the op budget on small programs and on deep/long programs (150-900 levels) on plain and caching parsers; lexical errors (illegal characters incl. unnamed code points and lone surrogates, unterminated strings, lone CR) spliced into valid programs at every token gap; syntax errors by truncation at every token boundary, bracket removal and stray tokens; reserved words at every atom position. (b) arbitrary text (random Unicode from all planes, latin-1 byte salad, splices and mutants of programs, 10^5-char lines, 10^4-deep nesting), judged with the reference lexer/parser where they say the text is invalid, through parse, list_names and eval. Non-trivial = the call raised and its class was judged; distinct = distinct (entry point, source text).'
+RULE += ' Names mappings of the failing programs include defaultdict / __missing__ mappings (a name the mapping does not contain is undefined); every broken text is also parsed twice on a parser with a parse cache.'
 ASSUMPTIONS = ['category is known by construction: the context evaluates the fault before anything else that could fail',
                'RecursionError and MemoryError are ordinary Exceptions (acceptable for (b))',
                'a worker process killed by a signal other than the harness watchdog counts as an interpreter crash']
@@ -73,9 +74,21 @@ LINE_CTX = ['y = @', 'x += @', 'l[0] = @', 'l[@] = 1', 'd["k"] += @', 'del l[@]'
             'g = v => @\nh = w => g(w)\nh(2)', 'x -= @', 'd[@] = 1']
 
 
-def names(ctx):
+class MissingDict(dict):
+    """a host mapping that answers unknown keys itself (the way defaultdict / Counter do) without storing them"""
+    def __missing__(self, key):
+        return 0
+
+
+def names(ctx, variant=0):
     def hm(fn, n):
         return [fn(i) for i in range(int(n))]
+    if variant in (4, 5, 6):
+        # host mappings whose subscript never raises KeyError: a name the mapping does not CONTAIN is still undefined for the language
+        import collections
+        base = names(ctx)
+        ctx.count('evals_on_names_mappings_with___missing__')
+        return collections.defaultdict(int, base) if variant == 4 else MissingDict(base) if variant == 5 else collections.defaultdict(list, base)
     return {'l': [1, 2, 3], 'ls': ['b', 'a'], 'd': {'k': {'q': 1}}, 's': 'abc', 'x': 5, 'e': [], 'f': lambda *a: a[-1] if a else None, 'hm': hm,
             'big': list(ctx.big), 'bigd': dict(ctx.bigd)}
 
@@ -267,7 +280,7 @@ def run_case(case, ctx):
             for psrc, budget in (('nope = 1\nnofn = v => v\nu = 1\nnopec = [1]\nrows = [1, 2]\nrows[7]', 1000), ('u = 2\nnope = 2\nf = n => f(n + 1)\nf(0)', 60), ('nope = 3\nu = 3\n[nope, u]', 1000)):
                 call(P.eval, psrc, dict(poison), None, budget)
             ctx.count('evals_preceded_by_poisoning_calls')
-        e = call(P.eval, src, names(ctx), ast_names, 10 ** 6)
+        e = call(P.eval, src, names(ctx, hash(src) % 8), ast_names, 10 ** 6)
         judge(ctx, case, 'eval', src, e, PE, cat)
         ctx.cov('categories', cat)
         if ctx.counters['judged_' + cat] % 300 == 1:
@@ -335,6 +348,12 @@ def run_case(case, ctx):
             if cat == 'lexical-error':
                 e = call(P.list_names, t2)
                 judge(ctx, case, 'list_names', t2, e, PE, cat)
+            if cat != 'syntax?':
+                # the same broken text submitted twice to a parser with a parse cache: the second submission fails like the first
+                for rep in ('caching parser, first submission', 'caching parser, second submission'):
+                    e = call(ctx.PC.parse, t2)
+                    judge(ctx, case, 'parse (%s)' % rep, t2, e, PE, cat)
+                ctx.count('broken_texts_resubmitted_to_a_caching_parser')
             ctx.cov('categories', cat)
     elif kind == 'fuzz':
         text = fuzz_text(case[1])
